@@ -6,11 +6,13 @@ package hsk
 // simulated wire.
 
 import (
+	"crypto/rand"
 	"fmt"
 	"net"
 	"runtime"
 	"time"
 
+	"hop.computer/hop/keys"
 	"hop.computer/hop/pkg/verifhook"
 	"hop.computer/hop/transport"
 
@@ -90,6 +92,13 @@ func genC19(r *vh.Runner) {
 	for a := 0; a < acks; a++ {
 		r.Case(fmt.Sprintf("cookie/%d", a), map[string]any{"rep": a}, func(c *vh.Case) {
 			c.Bubble(func() { cookieBinding(r, c, a) })
+		})
+	}
+	// (b') acknowledgements built by the harness with a consistent transcript
+	nc := r.Pick(6, 4000)
+	for a := 0; a < nc; a++ {
+		r.Case(fmt.Sprintf("consistent-ack/%d", a), map[string]any{"rep": a}, func(c *vh.Case) {
+			c.Bubble(func() { consistentAck(r, c, a) })
 		})
 	}
 	// (d) post-dated hidden requests
@@ -485,6 +494,109 @@ func cookieBinding(r *vh.Runner, c *vh.Case, rep int) {
 	}
 	if rep == 0 {
 		r.Sample(map[string]any{"kind": "cookie-binding", "stimuli": len(stimuli) + 2, "ack_len": len(ackA)})
+	}
+}
+
+// consistentAck: the harness plays the client itself. It sends a ClientHello
+// for its own KEM key pair, takes the cookie and the shared secret from the
+// ServerHello, and answers with acknowledgements that are internally
+// consistent (transcript and MAC computed over the key they present) but
+// present a key other than the one the cookie was minted for: differing in the
+// first or last bytes, in one bit, or altogether. Only the acknowledgement
+// with the key of the hello may be answered or leave state.
+func consistentAck(r *vh.Runner, c *vh.Case, rep int) {
+	rng := vh.NewRand(r.Seed, "c19-consistent", rep)
+	w, _ := newLoggedWorld(nil)
+	defer w.Server.Close()
+	w.V6 = rep%3 == 1
+	variants := []string{"same-key", "last-32-bytes-differ", "first-32-bytes-differ", "one-bit-differs", "last-byte-differs", "unrelated-key", "same-key"}
+	for vi, variant := range variants {
+		src := w.FreshAddr()
+		kem, err := keys.GenerateKEMKeyPair(rand.Reader)
+		if err != nil {
+			c.Inconclusive("kem keygen: " + err.Error())
+			return
+		}
+		pub, _ := kem.Public.MarshalBinary()
+		hello, err := transport.VerifClientHello(kem)
+		if err != nil {
+			c.Inconclusive("hello: " + err.Error())
+			return
+		}
+		mark := w.Net.LogLen()
+		w.Net.Inject(simnet.Delivery{Data: hello, Src: src, Dst: w.SrvAddr, Tag: "hello"})
+		bub.Settle(20 * time.Millisecond)
+		var sh []byte
+		for _, ev := range serverTx(w, mark) {
+			if len(ev.Data) == transport.HeaderLen+transport.KemCtLen+transport.PQCookieLen+transport.MacLen && ev.Data[0] == 0x02 && ev.Dst == src.String() {
+				sh = ev.Data
+			}
+		}
+		if sh == nil {
+			c.Inconclusive("no server hello for the harness's own client hello")
+			return
+		}
+		k, err := kem.Decapsulate(sh[transport.HeaderLen : transport.HeaderLen+transport.KemCtLen])
+		if err != nil {
+			c.Inconclusive("decapsulate: " + err.Error())
+			return
+		}
+		cookie := append([]byte(nil), sh[transport.HeaderLen+transport.KemCtLen:transport.HeaderLen+transport.KemCtLen+transport.PQCookieLen]...)
+		present := append([]byte(nil), pub...)
+		n := len(present)
+		switch variant {
+		case "last-32-bytes-differ":
+			for i := n - 32; i < n; i++ {
+				present[i] ^= byte(1 + rng.Intn(255))
+			}
+		case "first-32-bytes-differ":
+			for i := 0; i < 32; i++ {
+				present[i] ^= byte(1 << uint(rng.Intn(4))) // low bits: coefficients stay in range
+			}
+		case "one-bit-differs":
+			present[n-1-rng.Intn(32)] ^= byte(1 << uint(rng.Intn(8)))
+		case "last-byte-differs":
+			present[n-1] ^= byte(1 + rng.Intn(255))
+		case "unrelated-key":
+			other, _ := keys.GenerateKEMKeyPair(rand.Reader)
+			present, _ = other.Public.MarshalBinary()
+		}
+		ack, err := transport.VerifClientAck(present, k, cookie, fix.ServerName)
+		if err != nil {
+			// the presented bytes are not a key the library can parse: nothing to deliver
+			r.Count("consistent_acks_not_constructible:"+variant, 1)
+			continue
+		}
+		h0, s0 := w.Server.VerifTableSizes()
+		mark = w.Net.LogLen()
+		w.Net.Inject(simnet.Delivery{Data: ack, Src: src, Dst: w.SrvAddr, Tag: "consistent-ack:" + variant})
+		bub.Settle(50 * time.Millisecond)
+		h1, s1 := w.Server.VerifTableSizes()
+		auth := 0
+		tx := serverTx(w, mark)
+		for _, ev := range tx {
+			if len(ev.Data) > 0 && ev.Data[0] == 0x04 {
+				auth++
+			}
+		}
+		accepted := auth > 0 || h1 > h0 || s1 > s0
+		r.Count("evaluations", 1)
+		r.Count("consistent_acks_delivered:"+variant, 1)
+		r.Nontrivial(fmt.Sprintf("cack|%d|%d", rep, vi))
+		detail := map[string]any{"variant": variant, "source": src.String(), "server_auth_emitted": auth, "datagrams_emitted": len(tx),
+			"tables_before": []int{h0, s0}, "tables_after": []int{h1, s1}}
+		if variant == "same-key" {
+			if !accepted {
+				c.Inconclusive("control: consistent acknowledgement with the hello's key was not accepted: " + fmt.Sprint(detail))
+				return
+			}
+			r.Count("control_acks_accepted", 1)
+			continue
+		}
+		if accepted {
+			c.Violate("C19:client-ack-accepted:consistent-transcript:"+variant, detail)
+			return
+		}
 	}
 }
 
